@@ -92,7 +92,18 @@ func (c *udpMuxedConn) readPacket(
 			if pkt == c.bufHead {
 				c.bufHead = nil
 			}
+			// There is one wake-up token for all readers of this connection: packets that
+			// arrive back to back may have found it still pending. Pass it on while more
+			// is queued, or a sibling reader would sleep next to a queued packet.
+			more := c.bufTail != nil && c.readWaiting.Load() > 0
 			c.mu.Unlock()
+
+			if more {
+				select {
+				case c.notify <- struct{}{}:
+				default:
+				}
+			}
 
 			if len(b) < len(pkt.buf) {
 				err = io.ErrShortBuffer
